@@ -49,7 +49,7 @@ TRUSTED_EXTRA = ['harness/c18.py: ast visitor reading except clauses (fail-close
 
 PROP = 'C18'
 KF_CLEANUP, KF_EXIT, KF_BIGINT, KF_HANG = 'KF-C18-2', 'KF-C18-3', 'KF-C18-4', 'KF-C18-5'
-KF_NUL = 'KF-C18-8'
+KF_NUL, KF_LONG_NAME = 'KF-C18-8', 'KF-C18-12'
 
 # ---------------------------------------------------------------------------------------------
 # exception classes of the model  (Coq constructor -> how to get the real class)
@@ -726,9 +726,12 @@ class Runner:
         return pr, timed_out, d
 
 
-def c_fobs(pr, timed_out, text):
+def c_fobs(pr, timed_out, text, offending=None):
     code, ident, exc = classify_run(pr)
-    shown = source_shown(text, pr.err)
+    if offending is None:
+        shown = source_shown(text, pr.err)
+    else:  # the line that is wrong by construction must be the one that is shown
+        shown = any(l.strip() == offending.strip() for l in pr.err.splitlines())
     return '(FObs %s %s %s %s %s)' % (copt(code, cZ), copt(ident, cstring), cbool(exc is not None), cbool(timed_out),
                                        cbool(shown))
 
@@ -1159,7 +1162,8 @@ SYMBOLS = {  # type -> (name, definition generator name)
     'text-source': 'S_TS', 'text-matcher': 'S_TM', 'text-transformer': 'S_TT', 'program': 'S_PGM',
 }
 HOME_FILES = {'in.txt': 'ab a\nsecond line\n\nlast', 'empty.txt': '', 'd/x.txt': 'x\n', 'd/y.log': 'y\ny\n', 'd/sub/z.txt': 'z\n',
-              'prog.sh': '#!/bin/sh\necho out\necho err >&2\nexit 0\n', 'src.py': 'print("py")\n'}
+              'prog.sh': '#!/bin/sh\necho out\necho err >&2\nexit 0\n', 'src.py': 'print("py")\n',
+              'inc.xly': 'def string INCLUDED = from-included-file\n', 'inc2.xly': '# only a comment\n'}
 EXECUTABLES = ['prog.sh']
 
 
@@ -1181,6 +1185,7 @@ class Gram:
         self.act_focus = False
         self.defined = set()  # symbol types defined in this case
         self.n_files = 0
+        self.included = 0
         self.composed_names = []  # symbols whose value references other symbols
         self.chain_defs = 0
         self.dirs = []  # directories created in the sandbox (relative act dir)
@@ -1612,6 +1617,9 @@ class Gram:
 
     def multi_phase(self, phase):
         r = self.rng.below(20)
+        if self.p(0.05):
+            self.included += 1
+            return [kw('including'), ('fname', 'inc.xly' if self.included == 1 else 'inc2.xly')]
         if self.chain_focus and self.composed_names and self.p(0.3):
             return self.chain_use()
         if r < 2:
@@ -1819,21 +1827,31 @@ BAD_INTS = ["''", 'abc', '1.5', '1//0', '1%0', '2**-1', '0**-1', '10**100', '10*
 BAD_REGEXES = ["'('", "'[a'", "'*a'", "'a{2,1}'", "'(?P<n>a)(?P<n>b)'", "'\\'", "'(?z)'", "'a**'", "'(?<=a+)b'", "'[z-a]'", "'\\1'",
                "'(?i'", "')'", "'\\p{L}'", "'(?P<n'", "'(?P<1>a)'", "'\\g<1>'", "'a{99999999999}'", "'(?#'", "'\\N{no such}'",
                "'[[:alpha:]]'", "'(?P=zz)'", "'\\8'", "'x(?=y'", "'(' ", '@[UNDEFINED_SYMBOL]@', "''", '"\\"', "'(?-i)a'", "'((a)'",
-               "'\\Z\\z'", "'(a)\\2'"]
+               "'\\Z\\z'", "'(a)\\2'",
+               # extreme ones: re.compile rejects some of these with an exception that is NOT re.error
+               "'a{4294967296}'", "'x{1,99999999999999999999}'", "'a{2147483648}'", "'(?u)(?a)x'", "'(?a)(?L)x'", "'(?i)(?-i)a'",
+               "'" + '(' * 300 + 'a' + ')' * 300 + "'", "'" + '(a|' * 2000 + 'b' + ')' * 2000 + "'", "'[\\x00-\\U0010ffff]+'",
+               "'(?<=a*)b'", "'(?<!a|bc)d'", "'\\N{LATIN SMALL LETTER A}'", "'" + 'a' * 5000 + "'", "'(?P<" + 'n' * 1000 + ">a)'",
+               "'" + 'a?' * 25 + 'a' * 25 + "'", "'[' + 'a-z' * 500 + ']'", "'\\x{41}'", "'\\u12'", "'\\U00110000'", "'(?:){4294967295}'",
+               "'a{,}'", "'a{1,2}{3}'", "'(?s:.)(?x: a b )'", "'(?P<\u00e9>a)(?P=\u00e9)'", "'[\\d-z]'", "'\\777'"]
 BAD_GLOBS = ["'['", "'[!'", "'**'", "'***'", "''", "'a/../b'", "'{a,b}'", "'\\'", "'[z-a]'", "'[]'", "'[!]'", "'**/'", "'../*'",
              "'*/'", "'.'", "'..'", "'a//b'", '@[UNDEFINED_SYMBOL]@', "'[a-'", "'?' ", "'\u00e9*'", "'[[]'", "'**a'"]
 BAD_REPLS = ["'\\6'", "'\\g<foo>'", "'\\q'", "'\\'", "'\\g<'", "'\\g<1'", "'\\400'", "'\\g<-1>'", "'\\g<>'", "'\\g'", '"\\"', "'\\99'",
              "'\\g<1a>'", "'\\g<\u00e9>'", "'\\Z'"]
+BAD_FNAMES = ["''", '""', "'.'", "'..'", "'a/../b'", "'a//b'", "'x/'", "' '", "'a b'", 'a' * 300, "'" + 'd/' * 200 + "x'", "'" + '\u00e9' * 200 + "'",
+              '-', '--', "'-rel-act'", '@[UNDEFINED_SYMBOL]@', "'\\'", "'*'", "'a\tb'", '\x00', "'a\x00b'", "'\u2028'", 'in.txt/x', 'd', 'in.txt',
+              "'~'", "'$HOME'", "'%s'", "'{}'", 'CON', "'\ud7ff'"]
 PHASE_HEADERS = ['[conf]', '[setup]', '[act]', '[before-assert]', '[assert]', '[cleanup]']
 BAD_HEADERS = ['[nope]', '[setup', 'setup]', '[ setup ]', '[[setup]]', '[]', '[Setup]', '[assert] x', '[before_assert]', '[cleanup]]',
                '[conf][setup]', '[\u00e9]', '[setup\t]', '[ ]', '[act] $ echo']
 GARBAGE_LINES = ['no-such-instruction a b', "'unterminated", '"', '= = =', ':', '}', '{', ')', '( (', '@[X]@', 'def', 'def string', 'file',
-                 '\\', '$', '%', 'including no-such-file.xly', 'including', '<<EOF', 'EOF', '-rel-act', '!', '&& ||', '\u00a0', '\t\t',
+                 '\\', '$', '%', 'including no-such-file.xly', 'including', 'including inc.xly inc2.xly', 'including inc2.xly', 'including \'inc.xly',
+                 'including inc2.xly x y', 'including  ', 'including -rel-home inc.xly', '<<EOF', 'EOF', '-rel-act', '!', '&& ||', '\u00a0', '\t\t',
                  '#!', "exit-code == 'unterminated", 'run', 'def string S_STR = dup', 'stdin = @[S_PGM]@', '\x00', '\x0c', '\u2028x']
 ODD_CHARS = ["'", '"', '\\', '#', '@', '[', ']', '(', ')', '{', '}', ':', '=', '!', '|', '&', '<', '>', '$', '%', '~', '*', '?', ' ', '\t',
              '\u00a0', '\r', '\x0b', '\x0c', '\x00', '\u2028', '\u00e9', '\U0001f600', '-', '\x1b', '\ufeff', '\u200b', '`', ';', ',']
 WRONG_SYMBOL_SWAP = True
-MUTATIONS = ['tok_delete', 'tok_dup', 'tok_replace', 'tok_swap', 'truncate', 'quote', 'wrong_type', 'bad_int', 'bad_regex', 'bad_glob',
+MUTATIONS = ['tok_delete', 'tok_dup', 'tok_replace', 'tok_swap', 'truncate', 'truncate_line', 'quote', 'wrong_type', 'bad_int', 'bad_regex', 'bad_glob',
              'bad_repl', 'line_op', 'header', 'char', 'def_type', 'combo']
 
 
@@ -1866,7 +1884,9 @@ class Mutator:
             return 'empty', ''
         if kind == 'combo':
             k1, t1 = self.mutate(phys, rng.choice(MUTATIONS[:-1]))
-            # a second, character-level damage on the text of the first mutant
+            # a second damage on the text of the first mutant: a character, or the final newline
+            if rng.chance(0.25) and t1.endswith('\n'):
+                return 'combo(%s+no-final-newline)' % k1, t1[:-1]
             return 'combo(%s+char)' % k1, self._char(t1)
         if kind == 'tok_delete':
             i, j = rng.choice(pos)
@@ -1890,6 +1910,14 @@ class Mutator:
         elif kind == 'truncate':
             text = render(phys)
             return kind, text[:rng.below(len(text))]
+        elif kind == 'truncate_line':
+            # the file ends after a whole line: with its newline, without it, or the whole file just loses its final newline
+            k = rng.randint(1, len(phys))
+            text = render(phys[:k])
+            if rng.chance(0.3) and rng.chance(0.5):
+                text = render(phys)
+                return kind, text[:-1]
+            return kind, text if rng.chance(0.4) else text[:-1]
         elif kind == 'quote':
             i, j = rng.choice(pos)
             t = phys[i][j][1]
@@ -2034,6 +2062,11 @@ def kf_bigint_pred(text):
     return False
 
 
+def kf_long_name_pred(text):
+    """some path component (run of characters other than white space, quotes and '/') is longer than 255 bytes"""
+    return any(len(c.encode('utf-8', 'replace')) > 255 for c in re.split(r'[\s/\'"]+', text))
+
+
 def kf_nul_pred(text):
     return '\x00' in text
 
@@ -2169,6 +2202,9 @@ CORPUS_CASES = [
     ('N7b the same through a path symbol and a string symbol, in a transformer',
      '[setup]\ndef path P = -rel-home d\ndef string C = @[P]@1\nfile f.txt = x -transformed-by replace @[C]@ y\n', None),
     ('N8 empty glob pattern for the `path` file matcher (FIX-C18-6)', "[assert]\nexists -rel-home d : path ''\n", None),
+    ('N8b glob pattern without a path component for the `path` file matcher (FIX-C18-7)', "[assert]\nexists -rel-home d : path './'\n", None),
+    ('N9 file name longer than 255 bytes in cd (KF-C18-12)', '[setup]\ncd -rel-act %s\n' % ('a' * 300), KF_LONG_NAME),
+    ('N9b the same as program of the act phase', '[act]\n%s\n' % ('n' * 256), KF_LONG_NAME),
     ('unknown instruction', '[setup]\nno-such-instruction x\n', None),
     ('unknown phase', '[nope]\nx\n', None),
     ('unterminated quote', "[setup]\nfile f.txt = 'abc\n", None),
@@ -2182,10 +2218,12 @@ CORPUS_CASES = [
 ]
 
 
-def run_one_fuzz(runner, text, res, label):
+def run_one_fuzz(runner, text, res, label, offending=None):
     """-> (coq term or None, info, finding id or None)"""
-    doc, pex = _parse_doc(text, os.path.join(runner.root, 'parse.case'))
-    pr, to, _ = runner.run_text(text, files=HOME_FILES)
+    pr, to, d = runner.run_text(text, files=HOME_FILES, keep=True)
+    # what the real document parser does with the text, in the directory of the case (file inclusion is relative to it)
+    doc, pex = _parse_doc(text, os.path.join(d, 'test.case'))
+    shutil.rmtree(d, ignore_errors=True)
     if to:
         # a cut-off run is an alarm only if it is confirmed with a generous limit (a loaded machine must not cry)
         res.count('fuzz: runs cut off at 10 s and repeated with 90 s')
@@ -2203,13 +2241,85 @@ def run_one_fuzz(runner, text, res, label):
     elif (exc is ValueError and 'integer string conversion' in str(pr.exception)
           or internal and last.startswith('ValueError: Exceeds the limit')) and kf_bigint_pred(text):
         finding = KF_BIGINT
+    elif internal and last.startswith('OSError: [Errno 36] File name too long') and kf_long_name_pred(text):
+        finding = KF_LONG_NAME
     elif (internal and last.startswith('ValueError: embedded null byte')
           or exc is ValueError and 'embedded null byte' in str(pr.exception)) and kf_nul_pred(text):
         finding = KF_NUL
     elif internal and last.startswith('KeyError') and 'In [cleanup]' in pr.err and kf_cleanup_pred(text, runner, HOME_FILES):
         finding = KF_CLEANUP
-    term = '(FCase %s %s)' % ('None' if pex is None else '(Some %s)' % coq_class_nearest(type(pex)), c_fobs(pr, to, text))
+    term = '(FCase %s %s)' % ('None' if pex is None else '(Some %s)' % coq_class_nearest(type(pex)), c_fobs(pr, to, text, offending))
+    if offending is not None:
+        info['offending_line'] = offending
     return term, info, finding, (code, ident, exc, to)
+
+
+POSITIONS = {
+    'regex': [
+        '[assert]\nstdout matches {V}\n',
+        '[assert]\nstderr ~ -ignore-case {V}\n',
+        '[assert]\ncontents -rel-home in.txt : any line : contents matches {V}\n',
+        '[setup]\nfile f.txt = -contents-of -rel-home in.txt -transformed-by replace {V} X\n',
+        '[setup]\nfile f.txt = -contents-of -rel-home in.txt -transformed-by grep {V}\n',
+        '[assert]\nexists -rel-home d : name ~ {V}\n',
+        '[assert]\ndir-contents -rel-home d : every file : path ~ {V}\n',
+        '[setup]\ndef string R = {V}\n[assert]\nstdout matches @[R]@\n',
+        '[setup]\ndef text-transformer T = grep {V}\n[assert]\nstdout -transformed-by T is-empty\n',
+        '[before-assert]\nfile g.txt = x -transformed-by replace -at contents matches {V} a b\n',
+        '[cleanup]\ndef text-matcher M = matches -full {V}\n',
+        '[assert]\ndir-contents -rel-home d : -selection suffix ~ {V} is-empty\n',
+    ],
+    'int': [
+        '[assert]\nexit-code == {V}\n',
+        '[assert]\nstdout num-lines >= {V}\n',
+        '[setup]\ntimeout = {V}\n',
+        '[assert]\ndir-contents -rel-home d : -recursive -max-depth {V} is-empty\n',
+        '[assert]\ncontents -rel-home in.txt : any line : line-num == {V}\n',
+        '[setup]\nfile f.txt = -contents-of -rel-home in.txt -transformed-by filter -line-nums {V}\n',
+        '[assert]\ndir-contents -rel-home d : num-files < {V}\n',
+        '[setup]\ndef integer-matcher I = > {V}\n[assert]\nexit-code I\n',
+        '[setup]\ndef string N = {V}\n[assert]\nexit-code == @[N]@\n',
+    ],
+    'glob': [
+        '[assert]\nexists -rel-home d : name {V}\n',
+        '[assert]\nexists -rel-home d : path {V}\n',
+        '[assert]\ndir-contents -rel-home d : every file : stem {V}\n',
+        '[assert]\ndir-contents -rel-home d : -recursive -selection suffixes {V} is-empty\n',
+        '[setup]\ndef file-matcher F = suffix {V}\n[assert]\ndir-contents -rel-home d : any file : F\n',
+    ],
+    'fname': [
+        '[setup]\ncd -rel-act {V}\n', '[setup]\nfile {V} = x\n', '[setup]\ndir -rel-tmp {V}\n', '[assert]\nexists {V}\n',
+        '[assert]\ncontents -rel-home {V} : is-empty\n', '[setup]\ncopy -rel-home {V}\n', '[act]\n{V} arg\n', '[setup]\nrun % {V}\n',
+        '[conf]\nhome = {V}\n', '[conf]\nact-home = {V}\n', '[assert]\ndir-contents {V} : is-empty\n', '[setup]\nstdin = -contents-of {V}\n',
+        '[setup]\ndef path P = -rel-act {V}\n[assert]\nexists @[P]@\n', '[setup]\nenv {V} = x\n', '[setup]\nincluding {V}\n',
+    ],
+    'repl': [
+        '[setup]\nfile f.txt = -contents-of -rel-home in.txt -transformed-by replace a {V}\n',
+        '[assert]\nstdout -transformed-by replace -preserve-new-lines a {V} is-empty\n[act]\n$ echo a\n',
+        '[setup]\ndef text-transformer T = replace (a) {V}\n[act]\n$ echo a\n[assert]\nstdout -transformed-by T is-empty\n',
+    ],
+}
+DIRECTIVE_PHASES = ['[conf]', '[setup]', '[before-assert]', '[assert]', '[cleanup]']
+DIRECTIVE_VARIANTS = [('including', True), ('including inc.xly inc2.xly', True), ('including inc2.xly x y', True), ('including  ', True),
+                      ('including inc2.xly', False), ('including no-such-file.xly', True), ("including 'unterminated", True)]
+
+
+def systematic_cases(ctx):
+    """(label, text, offending line or None): every ill-formed / extreme value at argument positions of its kind (quick: two positions
+    per value, thorough: all); every malformed file-inclusion directive in every instruction phase, as last line with and without
+    final newline and followed by another line"""
+    rng = ctx.rng
+    out = []
+    for role, bad in (('regex', BAD_REGEXES), ('int', BAD_INTS), ('glob', BAD_GLOBS), ('repl', BAD_REPLS), ('fname', BAD_FNAMES)):
+        for v in bad:
+            ts = POSITIONS[role] if not ctx.quick else rng.sample(POSITIONS[role], 2)
+            for t in ts:
+                out.append(('systematic %s' % role, t.replace('{V}', v.strip() if role != 'regex' else v), None))
+    for ph in DIRECTIVE_PHASES:
+        for line, is_error in DIRECTIVE_VARIANTS:
+            for ending, tag in (('\n', 'last line'), ('', 'last line, no final newline'), ('\n# next line\n', 'followed by a line')):
+                out.append(('directive %s, %s' % (ph, tag), '%s\n%s%s' % (ph, line, ending), line if is_error else None))
+    return out
 
 
 def run_fuzz(ctx, res, runner):
@@ -2235,6 +2345,14 @@ def run_fuzz(ctx, res, runner):
             # a listed finding that no longer shows: not an error (it may have been repaired), but say so
             res.count('corpus finding not reproduced: ' + expect)
         res.count('fuzz: corpus')
+    for label, text, offending in systematic_cases(ctx):
+        term, info, finding, o = run_one_fuzz(runner, text, res, label, offending)
+        terms.append(term)
+        meta.append(info)
+        findings.append(finding)
+        res.count('fuzz outcome: %s' % (o[1] or ('exception ' + o[2].__name__ if o[2] else 'timeout' if o[3] else 'no identifier')))
+        res.count('fuzz: ' + label.split(',')[0].split(' [')[0])
+        res.nontrivial.add(('f', text))
     for b in range(n_base):
         focus = rng.weighted([('general', 5), ('act-line', 3), ('symbol-chain', 3)])
         g = Gram(rng)
